@@ -367,6 +367,14 @@ def run_case(case):
     desc = case["cls"]
     names = rw.stat_names(desc)
     exact = 0
+    if intuniv.rng_for("C08/sanity", case["id"]).random() < 0.3:
+        # the same specification object is sanity-checked first (that check samples with stand-in
+        # samplers bound to brute force) and sampled afterwards
+        try:
+            spec.sanity_check(min(case["N"], 3))
+            cx.count("sampling.specs_sanity_checked_first")
+        except NotImplementedError:
+            cx.count("sampling.sanity_check_not_implemented")
     try:
         for n in range(case["N"] + 1):
             by = rw.objects_by_params(desc, n)
